@@ -239,6 +239,7 @@ func runCheck(cmd, id, repo, verif, tier string, keep bool, only string, verbose
 	if tier == "thorough" {
 		cfg.timeout = 60 * time.Second
 		cfg.first = 5 * time.Second
+		cfg.confirm = true
 	}
 	if cfg.workers < 2 {
 		cfg.workers = 2
@@ -613,6 +614,7 @@ func writeEvidence(eng *Engine, verif, id, tier string, seed int, results []*Fun
 			"trusted_contracts_used":   trusted,
 			"obligation_kinds":         kinds,
 			"discharged_by_backend":    solverCount,
+			"confirmed_by_second_solver": confirmedCount(all),
 			"solver_time_s":            round3(solverSecs),
 			"load_s":                   round3(tLoad),
 			"vcgen_s":                  round3(tGen),
@@ -628,4 +630,15 @@ func writeEvidence(eng *Engine, verif, id, tier string, seed int, results []*Fun
 	jb, _ := json.MarshalIndent(ev, "", " ")
 	os.MkdirAll(filepath.Join(verif, "evidence"), 0o755)
 	os.WriteFile(filepath.Join(verif, "evidence", id+".json"), jb, 0o644)
+}
+
+// confirmedCount: thorough tier, obligations whose proof a second solver reproduced.
+func confirmedCount(all []*Obligation) int {
+	n := 0
+	for _, o := range all {
+		if o.confirmed != "" {
+			n++
+		}
+	}
+	return n
 }
